@@ -1,4 +1,5 @@
 import CstModel.Props.C15
+import CstModel.Props.GenToken
 open Cst.C15
 #print axioms fx_respects
 #print axioms mkNew_wf
@@ -13,3 +14,5 @@ open Cst.C15
 #print axioms last_spec
 #print axioms fold_spec
 #print axioms rfold_spec
+#print axioms Cst.Gen.gt_fields
+#print axioms Cst.Gen.gt_text
